@@ -146,5 +146,13 @@ theorem applyOp_ext (cfg : Cfg) (c : Ctx) (op : Op) (hw : WF c.st) (hs : SafeOp 
   | addRefund g => exact E_refund c _
   | subRefund g => exact E_refund c _
   | prepare x i => exact Ext.neutral ⟨rfl, fun _ => Or.inl rfl⟩ rfl (by simp [abs, applyOp, peek])
+  | setCredits a n =>
+    obtain ⟨h1, h2⟩ := ensure_ext c a hw
+    exact Ext.trans h1 (setCredits_ext _ a _ n h2).1
+  | addPreimage p d =>
+    simp only [applyOp]
+    cases h : c.st.preimages p with
+    | some v => exact Ext.refl c
+    | none => exact E_pre c p d h
 
 end Props.C09
